@@ -315,6 +315,31 @@ class DeMorganRev(ast.NodeTransformer):
         return n
 
 
+class IfToIfExp(_Blocks):
+    """`if c: x = a` / `else: x = b` -> `x = a if c else b`;  `if c: return a` followed by `return b` -> `return a if c else b`"""
+    def block(self, b):
+        out = []
+        i = 0
+        one = lambda body: len(body) == 1 and isinstance(body[0], ast.Assign) and len(body[0].targets) == 1 and isinstance(body[0].targets[0], ast.Name) \
+            and not any(isinstance(x, (ast.Yield, ast.YieldFrom, ast.Await, ast.NamedExpr)) for x in ast.walk(body[0].value))
+        while i < len(b):
+            st = b[i]
+            if isinstance(st, ast.If) and not any(isinstance(x, (ast.NamedExpr, ast.Yield, ast.YieldFrom, ast.Await)) for x in ast.walk(st.test)):
+                if st.orelse and one(st.body) and one(st.orelse) and st.body[0].targets[0].id == st.orelse[0].targets[0].id:
+                    out.append(ast.copy_location(ast.Assign(targets=st.body[0].targets, value=ast.IfExp(test=st.test, body=st.body[0].value, orelse=st.orelse[0].value), lineno=st.lineno), st))
+                    i += 1
+                    continue
+                if not st.orelse and len(st.body) == 1 and isinstance(st.body[0], ast.Return) and st.body[0].value is not None and i + 1 < len(b) \
+                        and isinstance(b[i + 1], ast.Return) and b[i + 1].value is not None \
+                        and not any(isinstance(x, (ast.Yield, ast.YieldFrom, ast.Await)) for r_ in (st.body[0], b[i + 1]) for x in ast.walk(r_)):
+                    out.append(ast.copy_location(ast.Return(value=ast.IfExp(test=st.test, body=st.body[0].value, orelse=b[i + 1].value)), st))
+                    i += 2
+                    continue
+            out.append(st)
+            i += 1
+        return out
+
+
 class CompToLoop(ast.NodeTransformer):
     """inside functions: `x = [E for v in IT if C...]` -> `acc__N = []` / `for v in IT: if C: acc__N.append(E)` / `x = acc__N`
     (one generator, plain Name loop variable that occurs nowhere else in the function, no nested scopes in E/C that could capture it)"""
@@ -450,7 +475,7 @@ def main():
     os.makedirs(dest, exist_ok=True)
     shutil.copytree("/repo/happysimulator", f"{dest}/happysimulator", ignore=shutil.ignore_patterns("__pycache__"))
     n = 0
-    known = {'reformat', 'rename-locals', 'flip-compare', 'aug-expand', 'invert-if', 'all', 'split-and', 'else-wrap', 'else-unwrap', 'ret-temp', 'swap-minmax', 'swap-early-return', 'all2', 'comp-to-loop', 'cond-temp', 'ifexp-to-if', 'chain-split', 'all3', 'while-true', 'early-continue', 'merge-and', 'return-none', 'all4', 'tuple-assign', 'demorgan-rev', 'all5'}
+    known = {'reformat', 'rename-locals', 'flip-compare', 'aug-expand', 'invert-if', 'all', 'split-and', 'else-wrap', 'else-unwrap', 'ret-temp', 'swap-minmax', 'swap-early-return', 'all2', 'comp-to-loop', 'cond-temp', 'ifexp-to-if', 'chain-split', 'all3', 'while-true', 'early-continue', 'merge-and', 'return-none', 'all4', 'tuple-assign', 'demorgan-rev', 'all5', 'if-to-ifexp'}
     if mode not in known:
         sys.exit(f'unknown mode {mode}')
     for dp, _, fs in os.walk(f"{dest}/happysimulator"):
@@ -500,6 +525,8 @@ def main():
                 t = TupleAssign().visit(t)
             elif mode == "demorgan-rev":
                 t = DeMorganRev().visit(t)
+            elif mode == "if-to-ifexp":
+                t = IfToIfExp().visit(t)
             elif mode == "all5":
                 t = DeMorganRev().visit(TupleAssign().visit(t))
             elif mode == "all4":
